@@ -296,6 +296,12 @@ macro_rules! c09_flags {
                 else if which == 2 { (write!(plain, "{}", x), write!(s, "{:*<1$}", x, w)) }
                 else if which == 3 { (write!(plain, "{}", x), write!(s, "{:01$}", x, w)) }
                 else if which == 4 { (write!(plain, "{:x}", x), write!(s, "{:#x}", x)) }
+                else if which == 6 {
+                    // width together with a precision that may exceed the stored digits (trailing zeros are part of the number)
+                    let p: usize = kani::any();
+                    kani::assume(p <= 4);
+                    (write!(plain, "{:.*}", p, x), write!(s, "{:>1$.2$}", x, w, p))
+                }
                 else { (write!(plain, "{}", x), write!(s, "{:^+1$}", x, w)) };
             assert!(r0.is_ok() && r.is_ok() && !s.overflow && !plain.overflow, "formatting with flags succeeds");
             kani::cover!(w == 12, "W:widest");
@@ -307,7 +313,7 @@ macro_rules! c09_flags {
             let total = if which == 0 || which == 4 { min_len } else if w > min_len { w } else { min_len };
             assert!(s.len == total, "flags only add padding, sign and prefix");
             let pad = total - min_len;
-            let (pl, pz) = if which == 1 { (pad, 0) } else if which == 3 { (0, pad) } else if which == 5 { (pad / 2, 0) } else { (0, 0) };
+            let (pl, pz) = if which == 1 || which == 6 { (pad, 0) } else if which == 3 { (0, pad) } else if which == 5 { (pad / 2, 0) } else { (0, 0) };
             if want_sign == 1 {
                 let c = s.buf[pl];
                 assert!(c == if neg { b'-' } else { b'+' }, "sign is printed once, after left padding");
